@@ -42,9 +42,10 @@ BOUNDS = {
     "thorough": {
         "variants": VARIANTS,
         "initial": "as quick",
-        "histories": "length <= 4 over the full alphabet (168421) and length 5 over the 9-instance alphabet with "
-                     "one instance per operation kind (59049) x 4 variants; 4000 random histories of length "
-                     "5..8",
+        "histories": "length <= 3 over the full alphabet x 4 variants, length 4 over the full alphabet (160000) x 2 "
+                     "variants each (rotating: buffered plain + mmap record / mmap plain + buffered record), "
+                     "length 5 over the 9-instance alphabet with one instance per operation kind (59049) x 4 "
+                     "variants; 4000 random histories of length 5..8",
         "line_endings": LINE_ENDINGS,
     },
 }
@@ -63,9 +64,16 @@ def cases(tier, seed):
     quick = tier != "thorough"
     init = INITIALS[0]
     full_len, core_len, core = (3, 4, CORE_ALPHABET) if quick else (4, 5, KIND_ALPHABET)
+    k = 0
     for n in range(0, full_len + 1):
         for ops in itertools.product(FULL_ALPHABET, repeat=n):
-            for v in VARIANTS:
+            k += 1
+            if not quick and n == full_len:
+                # thorough, longest full-alphabet histories: two of the four variants each, rotating
+                vs = (VARIANTS[0], VARIANTS[3]) if k % 2 else (VARIANTS[1], VARIANTS[2])
+            else:
+                vs = VARIANTS
+            for v in vs:
                 yield {"kind": "history", "cls": v, "init": init, "terminated": True, "ops": [list(o) for o in ops]}
     for ops in itertools.product(core, repeat=core_len):
         for v in VARIANTS:
